@@ -327,10 +327,19 @@ def r7(facts):
     sp = [p for p in pe.params if p['n'] == 'status']
     store = None
     sw = None
+    # the status byte: the local the event type is derived from (`evType = (byte >> 4) & 0x0F`)
+    status_src = set()
+    for b, j, st in pe.cfg.stmts():
+        if st['s'].get('k') == 'DeclStmt':
+            for v in st['s']['decls']:
+                if v['n'] == 'evType' or (v.get('init') is not None and any(y.get('k') == 'BinaryOperator' and y['op'] == '>>' and const_of(y['r']) == 4 for y in walk(v['init']))):
+                    for y in walk(v.get('init') or {}):
+                        if y.get('k') == 'DeclRefExpr' and not y.get('parm'):
+                            status_src.add(y.get('id'))
     for b, j, st in pe.cfg.stmts():
         for x in walk(st['s']):
             ap = assign_parts(x)
-            if ap and sp and strip(ap[0]).get('id') == sp[0]['id'] and strip(ap[1]).get('k') == 'DeclRefExpr' and short(strip(ap[1])['n']) == 'byte':
+            if ap and sp and strip(ap[0]).get('id') == sp[0]['id'] and strip(ap[1]).get('k') == 'DeclRefExpr' and strip(ap[1]).get('id') in status_src:
                 store = (b, j, st)
     for bid, blk in pe.cfg.blocks.items():
         if blk.get('term') == 'SwitchStmt' and 'cond' in blk and short(strip(blk['cond']).get('n', '')) == 'evType':
